@@ -18,7 +18,7 @@ P = hs.params()
 GRAMMAR = '''
 start: stmt+
 stmt: "let" NAME ["=" expr] ";" -> let
-    | expr ";" -> es
+    | seq{expr} ";" -> es
 ?expr: atom
      | expr "+" atom -> add
      | expr "-" atom
@@ -31,6 +31,7 @@ atom: NAME -> var
 _TILDE: "~"
 list: "[" _sep{expr, ","} "]"
 _sep{x, s}: x (s x)*
+seq{x}: x+
 NAME: /[a-z]+/
 NUM.2: /[0-9]+/
 %ignore " "
@@ -69,6 +70,10 @@ if P and P.get('kind') == 'emb':
         def start(self, c):
             return ('prog', tuple(c))
 
+        def seq(self, c):
+            # attached to a template's name; the template's body has a repetition (helper rules must not reach this callback)
+            return ('seq', len(c), tuple(c))
+
     class TTokens(TPlain):
         def NAME(self, t):
             return ('NAME', str(t))
@@ -106,6 +111,9 @@ if P and P.get('kind') == 'emb':
         def start(self, *c):
             return ('prog', c)
 
+        def seq(self, *c):
+            return ('seq', len(c), c)
+
         def NUM(self, t):
             return ('NUM', int(t))
 
@@ -129,6 +137,9 @@ if P and P.get('kind') == 'emb':
 
         def list(self, t):
             return ('list', str(t.data), tuple(t.children))
+
+        def seq(self, t):
+            return (str(t.data), len(t.children), tuple(t.children))
 
     class TPartial(Transformer):
         # only some rules have callbacks: the rest stays Tree
@@ -205,6 +216,8 @@ if P and P.get('kind') == 'var':
     LABELS = ['a', 'b', 'c']
     LEAVES = ['X', 'Y']
 
+    VT = P.get('visit_tokens', True)
+
     def make(base, log):
         class Rec(base):
             def a(self, c):
@@ -224,7 +237,7 @@ if P and P.get('kind') == 'var':
                 log.append(('Y', str(t)))
                 return Tree('b', [str(t)])
             # c keeps its default
-        return Rec()
+        return Rec(visit_tokens=VT)
     BASES = [Transformer, Transformer_NonRecursive, Transformer_InPlace, Transformer_InPlaceRecursive]
 
 
@@ -280,7 +293,7 @@ def _var_body(rec, ar, rot):
                 return hs.fail(rec, '%s result differs from Transformer' % base.__name__, tree=hs.plain(ref_tree), got=repr(r)[:300], want=repr(results[0])[:300])
         # every callback once per node, children before parents: the multiset of calls is fixed by the tree; order is bottom-up
         want_calls = sorted([(str(t.data), len(t.children)) for t in ref_tree.iter_subtrees() if t.data in ('a', 'b')] +
-                            [(t.type, str(t)) for t in ref_tree.scan_values(lambda v: isinstance(v, Token) and v.type in ('X', 'Y'))])
+                            ([(t.type, str(t)) for t in ref_tree.scan_values(lambda v: isinstance(v, Token) and v.type in ('X', 'Y'))] if VT else []))
         for base, log in zip(BASES, logs):
             if sorted(log) != want_calls:
                 return hs.fail(rec, '%s: callbacks not called exactly once per node' % base.__name__, tree=hs.plain(ref_tree), calls=log[:12], want=want_calls[:12])
@@ -308,6 +321,9 @@ def plan(tier, seed):
                                'timeout': 300 if quick else 2000, 'twin': ti == 0 and pin == 0 and lexer == 'contextual', 'bound': {'lexemes': L, 'kinds': len(LEXEMES)}})
     N = 5 if quick else 7
     slices.append({'id': 'var:N%d' % N, 'func': 'var', 'params': {'kind': 'var', 'N': N}, 'timeout': 600 if quick else 3000, 'bound': {'nodes': N, 'labels': 'rotating pattern x 3 rotations'}})
+    # the same with visit_tokens=False: no variant may call a token callback
+    slices.append({'id': 'var:N%d:visit_tokens=False' % (N - 1), 'func': 'var', 'params': {'kind': 'var', 'N': N - 1, 'visit_tokens': False}, 'timeout': 600 if quick else 3000,
+                   'bound': {'nodes': N - 1, 'visit_tokens': False}})
     meta = {
         'rule': 'emb: one path per (lexeme sequence with lazy pruning by the lexer/parser, transformer class); var: one path per (arity vector, label vector)',
         'technique': 'CrossHair symbolic execution of the real callback plumbing (create_callback, apply_visit_wrapper, inplace transformers, shift-time terminal callbacks) and of the four transformer classes',
